@@ -78,6 +78,11 @@ impl State {
     pub fn snake_case(&self) -> String {
         format!("{self}")
     }
+
+    #[cfg(feature = "verif_hooks")]
+    pub fn index(&self) -> usize {
+        self.0
+    }
 }
 
 /// This struct includes all information that should be attached to [State] but does not uniquely
